@@ -34,7 +34,7 @@ LEVEL_NOTE = (
 TECHNIQUE = ("Lean 4 proofs by induction over a hand model (hole lists, sections, images) + regenerated relocation table + differential "
              "correspondence with the real linker; the property itself is evaluated on real relaxed/unrelaxed link pairs with the Lean "
              "decoders and the Lean RV32 interpreter as oracles")
-RULE = ("corpus of 27 fixed links (C.J edges +-2044..2052, hole accounting, multi-section/multi-image, DEFINESYMBOL, data references, "
+RULE = ("corpus of 26 fixed links (C.J edges +-2044..2052, hole accounting, multi-section/multi-image, DEFINESYMBOL, data references, "
         "no layout, jal with other link registers, the open findings) + generated 'maze' programs (quick 30, thorough 240: 2-9 blocks "
         "and 0-3 functions scattered over 1-3 objects and 1-3 code sections, gaps around the 2 KiB reach, relaxable and base jumps, "
         "branches, calls, abs/pc-relative data references, 1-2 code memories incl. adjacent ones) + 2 C programs compiled by ppci for "
@@ -510,6 +510,7 @@ class Eval:
             info = d["info"]
             where = f"{info['ty']}@{info['sec']}+{info['off']}"
             sfx = ":cross-image" if info["cross"] else ""
+            wt = (lambda ty: "relax:wrong-target:cross-image" if info["cross"] else f"relax:wrong-target:{ty}")
             if "hiloU" in d:
                 vU, vR = int(d["hiloU"].split()[1]), int(d["hiloR"].split()[1])
                 if info["ty"] == "rel_imm20":
@@ -519,7 +520,7 @@ class Eval:
                     self.u_broken = True
                     continue
                 if vR != info["AR"] % 2 ** 32:
-                    self.fail(f"relax:wrong-target:{info['ty']}{sfx}", f"{where}: designates {vR:#x} after relaxation, symbol is at {info['AR']:#x}")
+                    self.fail(wt(info['ty']), f"{where}: designates {vR:#x} after relaxation, symbol is at {info['AR']:#x}")
                 continue
             tU, tR = d["tgtU"].split()[1], d["tgtR"].split()[1]
             if tU == "-" or tR == "-":
@@ -530,7 +531,7 @@ class Eval:
                 self.u_broken = True
                 continue
             if int(tR) != info["AR"]:
-                self.fail(f"relax:wrong-target:{info['tyR']}{sfx}",
+                self.fail(wt(info['tyR']),
                           f"{where}: unrelaxed {info['PU']:#x} -> {int(tU):#x}; relaxed {info['PR']:#x} -> {int(tR):#x} but the symbol is at {info['AR']:#x}")
             if "insU" in d:
                 iU, iR = d["insU"].split(), d["insR"].split()
@@ -543,7 +544,7 @@ class Eval:
                 elif iU[2] in ("jal", "br"):
                     offU, offR_ = int(iU[-1]), int(iR[-1])
                     if info["PU"] + offU == info["AU"] and info["PR"] + offR_ != info["AR"]:
-                        self.fail(f"relax:wrong-target:{info['tyR']}{sfx}", f"{where}: Spec.RV32 decodes the relaxed jump to {info['PR'] + offR_:#x}, symbol at {info['AR']:#x}")
+                        self.fail(wt(info['tyR']), f"{where}: Spec.RV32 decodes the relaxed jump to {info['PR'] + offR_:#x}, symbol at {info['AR']:#x}")
 
 
 # ---------------------------------------------------------------------------------------------
@@ -617,6 +618,11 @@ def corpus():
     # ... and backward: -2048 -> -2050, ValueError while relocating
     case("cross-image-backward", [["global start", "start:", "@j t", "section code2", "@j n", "n:", "t:"] + acc(1) + ["ebreak"]],
          layout="MEMORY m1 LOCATION=0x1000 SIZE=0x100 { SECTION(code) }\nMEMORY m2 LOCATION=0x7fc SIZE=0x100 { SECTION(code2) }")
+    # the same with a conditional branch (b_imm12, +-4 KiB): 4094 -> 4096 wraps silently, -4096 -> -4098 raises
+    case("cross-image-branch-forward", [["global start", "start:", "@j n", "n:", "beq x0, x0, t", "ebreak", "section code2", "c.nop", "t:"] + acc(1) + ["ebreak"]],
+         layout="MEMORY m1 LOCATION=0x1000 SIZE=0x1000 { SECTION(code) }\nMEMORY m2 LOCATION=0x2000 SIZE=0x100 { SECTION(code2) }")
+    case("cross-image-branch-backward", [["global start", "start:", "@j a", "a:", "tgt:"] + acc(1) + ["ebreak", "section code2"] + acc(2) + ["beq x11, x0, tgt", "ebreak"]],
+         layout="MEMORY m1 LOCATION=0x1000 SIZE=0x100 { SECTION(code) }\nMEMORY m2 LOCATION=0x1ffc SIZE=0x100 { SECTION(code2) }")
     # a word of data with a relocation behind an odd number of holes in the same image: P % 4 assert
     case("data-after-code", [["global start", "start:", "@j a", "a:", "ebreak", "section data", "w:", "dcd =a"]],
          layout="MEMORY flash LOCATION=0x1000 SIZE=0x8000 { SECTION(code) SECTION(data) }")
@@ -779,7 +785,7 @@ def run_cases(ctx, cases, extra=()):
                 if not (ssec is not None and ev.same_image(at[2], ssec)):
                     sfx = ":cross-image"
             where = "do_relaxations" if "POST" not in res else f"do_relocations ({at[0]} in {at[2]})"
-            ctx.fail(f"relaxed-link-fails:{res['R_exc']}:{at[0] if 'POST' in res else 'relax'}{sfx}",
+            ctx.fail(f"relaxed-link-fails:{res['R_exc']}:cross-image" if sfx else f"relaxed-link-fails:{res['R_exc']}:{at[0] if 'POST' in res else 'relax'}",
                      f"[{case['name']}] the unrelaxed link succeeds, the relaxed link raises {res['R_exc']} in {where}", case)
             continue
         ev = Eval(ctx, case, res)
